@@ -81,6 +81,7 @@ type mon struct {
 	preBlockOK   int             // successful ProcessPreBlock calls
 	preBlockCall int
 	blockOK      int // successful ProcessBlock calls
+	blockCall    int // all ProcessBlock calls
 	verifiedOK   map[H]bool // block/pre-block content hash -> VerifyBlock verdict given
 	commitVer    map[H]bool // commit payload hash -> true if VerifyCommit ran while the header was constructible
 	preCVer      map[H]bool
@@ -414,7 +415,8 @@ func (n *Node) cbProcessBlock(b dbft.Block[H]) error {
 	if n.trusted() {
 		n.monBlockCertificate(bb)
 	}
-	if f := n.sc().FailBlock; f != nil && n.amevAt(c.BlockIndex) && f(n.id, c.BlockIndex, m.blockOK) {
+	m.blockCall++
+	if f := n.sc().FailBlock; f != nil && n.amevAt(c.BlockIndex) && f(n.id, c.BlockIndex, m.blockCall) {
 		return errors.New("injected ProcessBlock failure")
 	}
 	m.blockOK++
